@@ -19,6 +19,23 @@ from .th_tree import Val, L, LEN, VA
 TAG = Function('tag', Val, IntSort())
 SEQ = Function('seq', Val, L)
 LEN0 = Function('len0', Val, IntSort())
+ISSTRV = Function('is_a_str', Val, BoolSort())              # the value is a str (its tag is OTHER)
+SIZEDV = Function('range_like_has_len', Val, BoolSort())    # a range-like value with __len__ (range, dict_keys, dict_values - not a zip object)
+UNIVERSE_NOTE = ('universe:a value tagged OTHER is a string or a scalar that is neither Iterable nor sized (sets, frozensets, bytes, generators are outside the '
+                 'value datatype); None is neither; of the range-like values range / dict_keys / dict_values have __len__, zip objects do not')
+LEN0_NOTE = ('callee contract:len0(x) is len(x) for a list, tuple, dict and a sized range-like x (range, dict_keys, dict_values) and 0 for None, strings, other '
+             'scalars and zip objects (body verified in C19 len0.*)')
+ITER_NOTE = ('callee contract:is_iterable(x) holds for list, tuple, range-like and dict values, not for None, strings and other scalars '
+             '(body verified in C19 is_iterable.*)')
+
+
+def sized(v):
+    """x has __len__ and is not a string: the values for which len0 is len"""
+    return Or(TAG(v) == T_LIST, TAG(v) == T_TUPLE, TAG(v) == T_DICT, And(TAG(v) == T_RNG, SIZEDV(v)))
+
+
+def len0_spec(v):
+    return If(sized(v), LEN(SEQ(v)), 0)
 T_NONE, T_LIST, T_TUPLE, T_RNG, T_DICT, T_OTHER = 0, 1, 2, 3, 4, 5
 TAG_OF = {'list': (T_LIST,), 'tuple': (T_TUPLE,), 'range': (T_RNG,), 'dict_keys': (T_RNG,), 'dict_values': (T_RNG,), 'zip': (T_RNG,), 'dict': (T_DICT,),
           'type(None)': (T_NONE,)}
@@ -141,14 +158,14 @@ def lens_contract(ex, st, n_values, len_at):
 
 
 class Conts:
-    def __init__(self, len0_contract=True):
+    def __init__(self, len0_contract=True, len_raises=False):
         self.len0_contract = len0_contract
+        self.len_raises = len_raises         # len(x) on a symbolic value raises TypeError unless x has __len__ (off: call sites guard len by isinstance)
 
     def len0_of(self, ex, sv):
         if sv.kind == 'cv':
             v = Const('v!len0', Val)
-            ex.fact(ForAll([v], And(LEN0(v) >= 0, Implies(Or(is_seq_tag(v), TAG(v) == T_DICT), LEN0(v) == LEN(SEQ(v))),
-                                    Implies(Or(TAG(v) == T_NONE, TAG(v) == T_OTHER), LEN0(v) == 0))))
+            ex.fact(ForAll([v], And(LEN0(v) >= 0, Implies(sized(v), LEN0(v) == LEN(SEQ(v))), Implies(Not(sized(v)), LEN0(v) == 0))))
             return LEN0(sv.t)
         if sv.kind == 'ite':
             return If(sv.c, self.len0_of(ex, sv.a), self.len0_of(ex, sv.b))
@@ -172,7 +189,7 @@ class Conts:
             if e.func.id == 'zip':
                 ex.use('axiom:zip(*seqs) yields min(len) tuples (none for no sequences), the k-th holding the k-th element of every sequence')
                 return SV('zipof', None, n=n, at=at)
-            ex.use('assumed contract:len0(x) is len(x) for a sized non-string x and 0 otherwise (bounded-checked)')
+            ex.use(LEN0_NOTE)
             return lens_contract(ex, st, n, lambda j: self.len0_of(ex, at(st.fork(), j)))
         if isinstance(e.func, ast.Name) and e.func.id == 'isinstance' and len(e.args) == 2:
             tn = e.args[1]
@@ -181,6 +198,12 @@ class Conts:
                 ex.use('path precondition: no value is a pandas / numpy object')
                 return B(False)
             v = ex.eval(st, e.args[0])
+            if v.kind == 'cv' and (names == ['Iterable'] or set(names) <= {'str', 'np.str_'}):
+                ex.use(UNIVERSE_NOTE)
+                ex.fact(Implies(ISSTRV(v.t), TAG(v.t) == T_OTHER))
+                if names == ['Iterable']:
+                    return B(Or(is_iter(v), ISSTRV(v.t)))
+                return B(ISSTRV(v.t))
             if v.kind in ('cv', 'seqlit', 'tuple', 'copyof', 'ite') and all(n in TAG_OF for n in names):
                 tags = sorted({t for n in names for t in TAG_OF[n]})
                 ex.use('model:isinstance against list / tuple / range / dict views / zip / dict is a test of the container tag')
@@ -190,6 +213,13 @@ class Conts:
 
     def call(self, ex, st, e, fname, args, kwargs):
         if fname == 'len' and len(args) == 1 and args[0].kind in ('cv', 'seqlit', 'copyof', 'ite', 'repeat', 'cvs'):
+            if args[0].kind == 'cv' and self.len_raises:
+                h = args[0].t
+                ex.use(UNIVERSE_NOTE)
+                ex.fact(Implies(ISSTRV(h), TAG(h) == T_OTHER))
+                ex.fact(LEN(SEQ(h)) >= 0)
+                ex.raise_if(st, Not(Or(sized(h), ISSTRV(h))), 'TypeError')
+                return I(If(sized(h), LEN(SEQ(h)), Function('str_len', Val, IntSort())(h)))
             if args[0].kind == 'cv':
                 ex.fact(LEN(SEQ(args[0].t)) >= 0)
             return I(seq_len(args[0]))
@@ -198,19 +228,24 @@ class Conts:
             return SV('copyof', None, src=args[0], tag=T_LIST if fname == 'list' else T_TUPLE)
         if fname == 'tuple' and len(args) == 1 and args[0].kind == 'cvs':
             return args[0]
-        if fname == 'len0' and len(args) == 1 and self.len0_contract:
-            ex.use('assumed contract:len0(x) is len(x) for a sized non-string x and 0 otherwise (bounded-checked)')
+        if fname == 'len0' and len(args) == 1 and self.len0_contract and 'len0' not in ex.inline:
+            ex.use(LEN0_NOTE)
             a = args[0]
             if a.kind == 'cvs':
                 return I(a.n)
             if a.kind == 'cv':
                 ex.fact(LEN0(a.t) >= 0)
-                ex.fact(Implies(is_seq_tag(a.t), LEN0(a.t) == LEN(SEQ(a.t))))
+                ex.fact(Implies(sized(a.t), LEN0(a.t) == LEN(SEQ(a.t))))
+                ex.fact(Implies(Not(sized(a.t)), LEN0(a.t) == 0))
                 return I(LEN0(a.t))
             return I(seq_len(a))
-        if fname == 'is_iterable' and len(args) == 1 and args[0].kind in ('cv', 'seqlit', 'copyof', 'tuple', 'ite', 'repeat'):
-            ex.use('assumed contract:is_iterable(x) holds for list, tuple, range-like and dict values, not for None, strings and other scalars')
+        if fname == 'is_iterable' and len(args) == 1 and args[0].kind in ('cv', 'seqlit', 'copyof', 'tuple', 'ite', 'repeat') and 'is_iterable' not in ex.inline:
+            ex.use(ITER_NOTE)
             return B(is_iter(args[0]))
+        if fname == 'is_str' and len(args) == 1 and args[0].kind == 'cv' and 'is_str' in ex.inline:
+            return ex.call_inline_expr(st, 'is_str', args, kwargs)          # the real body (an isinstance test), not the by-kind shortcut of TypePreds
+        if fname == 'getattr' and len(args) == 3 and args[0].kind == 'cv' and args[1].kind == 'str' and args[1].t is None and args[1].lit == '__len__':
+            return SV('lenfn', args[0].t, default=args[2])
         if fname == 'set' and len(args) == 1 and args[0].kind == 'lazylist':
             ll = args[0]
             ex.use('axiom:set(xs) contains exactly the elements of xs')
@@ -223,6 +258,28 @@ class Conts:
             return SV('card', None, s=args[0])
         if fname == 'list' and len(args) == 1 and args[0].kind == 'intset':
             return SV('setlist', None, s=args[0])
+        return NotImplemented
+
+    def call_value(self, ex, st, e, fn, args, kwargs):
+        if fn.kind == 'lenfn' and not args and not kwargs:
+            h, default = fn.t, fn.f['default']
+            ex.use(UNIVERSE_NOTE)
+            ex.use('axiom:getattr(x, "__len__", default)() is len(x) for a value that has __len__ (list, tuple, dict, str, sized range-like) and default() otherwise; '
+                   'len of these never raises')
+            ex.fact(Implies(ISSTRV(h), TAG(h) == T_OTHER))
+            ex.fact(LEN(SEQ(h)) >= 0)
+            has = Or(sized(h), ISSTRV(h))
+            if default.kind != 'func':
+                raise OutOfSubset('getattr default of kind %s called' % default.kind)
+            st.guards.append(Not(has))
+            try:
+                dv = ex.call_func(st, default, [], {})
+            finally:
+                st.guards.pop()
+            if dv.kind != 'int':
+                raise OutOfSubset('__len__ default returns %s' % dv.kind)
+            STRLEN = Function('str_len', Val, IntSort())
+            return I(If(sized(h), LEN(SEQ(h)), If(ISSTRV(h), STRLEN(h), dv.t)))
         return NotImplemented
 
     def binop(self, ex, st, e, op, a, b):
@@ -275,6 +332,11 @@ class Conts:
             return I(r)
         if recv.kind == 'cvs' and idx.kind == 'int':
             return recv.at(st, idx.t)
+        if recv.kind == 'cvs' and idx.kind == 'slice' and idx.f.get('hi') is None and idx.f.get('step') is None and idx.f.get('lo') is not None \
+                and idx.f['lo'].kind == 'int' and z3.is_int_value(simplify(idx.f['lo'].t)) and simplify(idx.f['lo'].t).as_long() >= 0:
+            k = simplify(idx.f['lo'].t).as_long()
+            ex.use('axiom:xs[k:] of a tuple holds the items from position k on (none when len(xs) <= k)')
+            return SV('cvs', None, n=If(recv.n >= k, recv.n - k, 0), at=lambda st2, j, recv=recv, k=k: recv.at(st2, zi(j) + k))
         return NotImplemented
 
     def iterate(self, ex, st, it):
@@ -411,6 +473,9 @@ class Lift:
     def attr(self, ex, st, e, recv, name):
         if recv.kind == 'obj' and name == 'types':
             return SV('typeset')
+        if recv.kind == 'obj' and name == 'first':
+            ex.use('uninterpreted:self.first (the name of the first parameter of the lifted function, a property over getargs) is an opaque value')
+            return CV(Const('FIRST_PARAMETER', Val))
         return NotImplemented
 
     def pre_call(self, ex, st, e):
@@ -494,6 +559,9 @@ class Lift:
     def compare(self, ex, st, e, op, a, b):
         if op in ('In', 'NotIn') and a.kind == 'typeof' and b.kind == 'typeset':
             r = INTYPES(a.t)
+            return r if op == 'In' else Not(r)
+        if op in ('In', 'NotIn') and a.kind == 'cv' and b.kind == 'kwmap':
+            r = KWHAS(b.t, a.t)
             return r if op == 'In' else Not(r)
         if op in ('Eq', 'NotEq') and a.kind == 'sortedkeys' and b.kind == 'sortedkeys':
             ex.use('model:two sorted key lists are equal iff they are the same abstract list; dicts with equal sorted key lists have the same keys')
